@@ -428,4 +428,6 @@ def run(ctx):
     r4(ctx, fs)
     r5(ctx, fs)
     from .C17 import item_eq_tables
-    item_eq_tables(ctx, 'C13.R5', fs)       # `==` / `!=` of RIDDLE boolean expressions reach sat_core::new_eq through bool_item::new_eq
+    item_eq_tables(ctx, 'C13.R5', fs)
+    # every defining clause goes through sat_core::new_clause (root simplification: duplicates, tautologies) and is propagated by the SAT core (C07)
+    ctx.include('C07')       # `==` / `!=` of RIDDLE boolean expressions reach sat_core::new_eq through bool_item::new_eq
